@@ -31,6 +31,7 @@ class TargetMissing(Exception):
 
 def resolve(target):
     """'jaxley.channels.hh:HH.m_gate' -> (owner class or None, function object)"""
+    target = target.split("#")[0]          # "module:Class.method#variant" names a variant contract of the same function
     mod, _, qual = target.partition(":")
     try:
         m = importlib.import_module(mod)
